@@ -279,6 +279,8 @@ type monC06 struct {
 	lowSeen  bool
 	highSeen bool
 	nanSeen  bool
+	psInput  [21]float64
+	havePS   bool
 }
 
 func (m *monC06) Event(ev *hermes.VerifEvent, rc *RunCtx) {
@@ -287,6 +289,8 @@ func (m *monC06) Event(ev *hermes.VerifEvent, rc *RunCtx) {
 	case "input_done":
 		m.begZeit = g.BEGINN
 		m.fin = newFiniteScanner(ev)
+		m.psInput = g.PORGES
+		m.havePS = true
 	case "pre_evatra":
 		if ev.Zeit == m.begZeit {
 			m.wgStart = g.WG[0]
@@ -329,6 +333,14 @@ func (m *monC06) Event(ev *hermes.VerifEvent, rc *RunCtx) {
 				rc.Violate("C06", nanSig(g, "water_content_not_finite"), fmt.Sprintf("layer %d water content is %v", z+1, w), ev.Zeit, z+1, nil)
 				m.nanSeen = true
 				continue
+			}
+			// independent of the model's own (possibly corrupted) parameters: a volumetric water content is below 1, and the
+			// pore volume of a layer is what the input module set up for it (a groundwater change moves field capacity, not pores)
+			if w >= 1 {
+				rc.Violate("C06", "water_content_above_one", fmt.Sprintf("layer %d volumetric water content %.17g is not below 1 (pore volume %.6g, field capacity %.6g)", z+1, w, g.PORGES[z], g.W[z]), ev.Zeit, z+1, nil)
+			}
+			if m.havePS && w > m.psInput[z]+0.055+eps && w > g.W[z]-1e-9 {
+				rc.Violate("C06", "above_pore_volume_of_input", fmt.Sprintf("layer %d water content %.17g exceeds the pore volume %.6g the layer had after input (+ the largest capillary increment); today's pore volume %.6g, field capacity %.6g", z+1, w, m.psInput[z], g.PORGES[z], g.W[z]), ev.Zeit, z+1, nil)
 			}
 			lo := g.WMIN[z] / 3
 			if m.wgStart[z] >= lo && w < lo-eps {
